@@ -14,6 +14,13 @@ pub fn unix_timestamp() -> std::time::Duration {
         }
     }
 
+    #[cfg(feature = "verif_hooks")]
+    {
+        if let Some(override_val) = crate::verif_hooks::now_override() {
+            return override_val;
+        }
+    }
+
     let now = std::time::SystemTime::now();
 
     #[expect(clippy::expect_used, reason = "trivial")]
